@@ -26,6 +26,7 @@ CONSTANTS
   TbVals = {}
   TickVals = {}
   Targets = {"A", "B"}
+  SubTargets = {"A", "B"}
   AutoVals = {TRUE, FALSE}
   SubOneshot = {FALSE}
   Senders = {"A"}
